@@ -77,7 +77,7 @@ func runC06(p *Prog, r *Report) {
 		dr := rc.Ev("select-recv", "")
 		okO := false
 		for _, e := range dr {
-			if strings.HasSuffix(e.What, ".recvQ") && hasAtom(e.Guard, "select#0 != 0") {
+			if strings.HasSuffix(e.What, ".recvQ") && hasAtomPrefix(e.Guard, "!arm(") {
 				okO = true
 			}
 		}
@@ -99,7 +99,7 @@ func runC06(p *Prog, r *Report) {
 		if okF {
 			for _, a := range fr[0].Guard {
 				switch {
-				case a == "!sub.(*context).matches(…)", strings.HasPrefix(a, "select#"), strings.HasPrefix(a, "bytes.Equal(recv.subs["):
+				case a == "!sub.(*context).matches(…)", strings.HasPrefix(a, "select#"), strings.HasPrefix(a, "arm("), strings.HasPrefix(a, "!arm("), strings.HasPrefix(a, "bytes.Equal(recv.subs["):
 				case strings.Contains(a, "len(recv.subs)"), strings.HasSuffix(a, " >= 0"), strings.HasSuffix(a, " != -1"):
 				default:
 					okF = false
